@@ -20,6 +20,7 @@ EXPLANATION = (
     'text is cleared when a status without error arrives; R7 the zone list handed out is not the stored one (C11.R2 re-used).'
     " Added later: R2 also demands that the new record is stored before the handler first suspends (an older frame's handler cannot overwrite a newer record; getters show a frame as soon as its handler starts); R8 the stored records are decoded as the vendor defines (C05.R1-R3 re-used); R9 subscriber isolation (C07.R7 re-used)."
     ' Rounds 7-8: R2 also: next_quick_timer by truth table (both timers, disabled / enabled, midnight included); R3 covers every public getter (identity and wiring getters, model, spill_state by truth table); R6 also: the error-information case of _message_received carries no state guard; R10 every handshake frame is applied to the model before the client reports itself initialised (C09.R1 re-used).'
+    ' Rounds 9-10: R2 also: the record stored is the parameter as received (not rebound) and next_quick_timer reads the timer record only; R11 (C15.R3 re-used): shutdown() withdraws `initialised` before it first suspends.'
 )
 ASSUMPTIONS = ["Enum members are compared by identity; dict lookup of a missing key raises KeyError"]
 FLOORS = {"C10.R1": 14, "C10.R2": 10, "C10.R3": 40, "C10.R4": 8, "C10.R5": 6, "C10.R6": 6, "C10.R7": 1, "C10.R8": 1, "C10.R9": 1, "C10.R10": 1, "C10.R11": 1}
